@@ -46,6 +46,22 @@ pub fn generate(g: &mut Gen) {
             single_layer(g, spec, Sh::Flat(4), &format!("dense/{}", act));
         }
     }
+    // every element-wise activation on spatial layers too (a convolution, a deconvolution), with pre-activations of both signs
+    for act in ["relu", "leaky", "sigmoid", "tanh", "linear", "softmax"] {
+        let ks = (0..2).map(|_| weights(g, &Shape::Triple(2, 2, 3), 0.8)).collect();
+        single_layer(g, InnerSpec::Conv { filters: 2, act: act.to_string(), k: (2, 3), s: (1, 2), p: (1, 0), d: (2, 1), dropout: None, ks }, Sh::Vol(2, 4, 5), &format!("conv/{}", act));
+        let ks = (0..2).map(|_| weights(g, &Shape::Triple(2, 2, 3), 0.8)).collect();
+        single_layer(g, InnerSpec::Deconv { filters: 2, act: act.to_string(), k: (2, 3), s: (2, 1), p: (0, 1), dropout: None, ks }, Sh::Vol(2, 3, 4), &format!("deconv/{}", act));
+    }
+    // a soft-max layer whose pre-activations are ALL strongly negative (only their differences matter), all strongly positive,
+    // and far apart
+    for bias in [-150.0f32, -95.0, -110.0, 150.0, 1.0e4, -1.0e4] {
+        let w = Tensor::double(vec![vec![0.5, -0.25, 0.125], vec![-0.5, 0.75, 0.25], vec![0.25, 0.25, -0.5]]);
+        let spec = InnerSpec::Dense { out: 3, act: "softmax".into(), bias: true, dropout: None, w, b: Some(Tensor::single(vec![bias, bias - 1.5, bias + 1.0])) };
+        let net = NetSpec { input: Shape::Single(3), builds: vec![Build::Layer(spec)], skipacc: "add".into(), loopacc: "mean".into(), opt: None, obj: "ce".into(), clamp: None };
+        g.push(format!("net {} predict {}", net.token(), qt(&Tensor::single(vec![0.5, -1.0, 2.0]))), Tol::Tight, "dense/softmax/shifted-logits", true);
+        g.push(format!("net {} forward {}", net.token(), qt(&Tensor::single(vec![0.5, -1.0, 2.0]))), Tol::Tight, "dense/softmax/shifted-logits", true);
+    }
     // scale: tiny inputs against huge weights, huge inputs against tiny weights, subnormal inputs (W x + b has no
     // threshold below which an input stops counting), for dense layers and a convolution
     for (xs, wscale) in [(vec![5e-8f32, 1e-9, -3e-8, 2e-10], 1e6f32), (vec![1e-30, -2e-31, 3e-30, 1e-32], 1e28), (vec![3e4, -1e5, 2e4, 5e3], 1e-5),
